@@ -56,6 +56,100 @@ m("C23", "harmless_ascending_reordered", POOL,
 		}, true); err != nil {""")],
   "OK", "harmless: traversal iterates ascending and tests the two bounds in the other order")
 
+# ---------------------------------------------------------------- C22
+DUP = """			if prev, found := facts[factkey]; found {
+				removeops = append(removeops, ops[prev][0])
+				ops[prev] = [2]util.Hash{}
+
+				selected--
+			}
+"""
+m("C22", "keep_first_per_fact", POOL,
+  [(DUP, """			if _, found := facts[factkey]; found {
+				removeops = append(removeops, meta.Operation())
+
+				return true, nil
+			}
+""")],
+  "VIOLATION", "on a repeated fact the first operation is kept and the newer one removed")
+m("C22", "limit_off_by_one_more", POOL,
+  [("			return selected < limit, nil\n", "			return selected <= limit, nil\n")],
+  "VIOLATION", "stops one selection too late: limit+1 entries")
+m("C22", "limit_off_by_one_less", POOL,
+  [("			return selected < limit, nil\n", "			return selected+1 < limit, nil\n")],
+  "VIOLATION", "stops one selection too early: limit-1 entries although more pass (limit 1 still returns 1)")
+m("C22", "filter_result_ignored", POOL,
+  [("""			case !ok:
+				removeops = append(removeops, meta.Operation())
+
+				return true, nil
+			}
+""", """			case !ok:
+				_ = ok
+			}
+""")],
+  "VIOLATION", "the filter's false answer is ignored")
+m("C22", "removes_returned_op", POOL,
+  [("				removeops = append(removeops, ops[prev][0])\n", "				removeops = append(removeops, meta.Operation())\n")],
+  "VIOLATION", "the newly selected operation instead of the superseded one is recorded as removed (part of the defect fixed by a71f6ef)")
+m("C22", "stale_index_after_shift", POOL,
+  [("				ops[prev] = [2]util.Hash{}\n", "				ops = append(ops[:prev:prev], ops[prev+1:]...)\n")],
+  "VIOLATION", "the superseded slot is removed by shifting without re-indexing the fact map (the defect fixed by a71f6ef)")
+m("C22", "set_not_idempotent", POOL,
+  [("""	key, orderedkey := newNewOperationLeveldbKeys(op.Hash())
+
+	switch found, err := pst.Exists(key); {
+	case err != nil:
+		return false, e.Wrap(err)
+	case found:
+		return false, nil
+	}
+""", """	key, orderedkey := newNewOperationLeveldbKeys(op.Hash())
+
+	switch _, err := pst.Exists(key); {
+	case err != nil:
+		return false, e.Wrap(err)
+	}
+""")],
+  "VIOLATION", "SetOperation stores an already known operation again")
+m("C22", "harmless_reordered", POOL,
+  [("""	if err := db.removeNewOperationOrdereds(removeordereds); err != nil {
+		return nil, e.Wrap(err)
+	}
+
+	if err := db.setRemoveNewOperations(ctx, height, removeops); err != nil {
+		return nil, e.Wrap(err)
+	}
+
+	selectedops := make([][2]util.Hash, 0, selected)
+
+	for i := range ops {
+		if ops[i][0] != nil {
+			selectedops = append(selectedops, ops[i])
+		}
+	}
+""", """	var picked [][2]util.Hash
+
+	for _, item := range ops {
+		if item[0] == nil {
+			continue
+		}
+
+		picked = append(picked, item)
+	}
+
+	selectedops := picked
+
+	if err := db.setRemoveNewOperations(ctx, height, removeops); err != nil {
+		return nil, e.Wrap(err)
+	}
+
+	if err := db.removeNewOperationOrdereds(removeordereds); err != nil {
+		return nil, e.Wrap(err)
+	}
+""")],
+  "OK", "harmless: compaction before the removals, the two removal calls swapped, locals renamed")
+
 
 def main():
     want = set(sys.argv[1:])
